@@ -1,6 +1,7 @@
 /- table of all driver ops; one `*Ops` list per area -/
 import GoNeat.Driver.Genetics
+import GoNeat.Driver.Solver
 
 namespace GoNeat.Driver
-def allOps : List (String × Handler) := geneticsOps
+def allOps : List (String × Handler) := geneticsOps ++ solverOps
 end GoNeat.Driver
